@@ -245,5 +245,24 @@ CHECKS["C07"] = dict(
           dict(name="large-replay", test="^TestLargeReplay$", kind="plain", quick=dict(n=1, procs=1, timeout=300), thorough=dict(n=1, procs=1, timeout=300))],
 )
 
+CHECKS["C08"] = dict(
+    level="fault_enumeration",
+    technique="fault-point enumeration over generated sessions (rapid): every byte offset of the serialised victim session is a cut point, x the ways a connection "
+              "can end; oracle: exact end state (subscription index dump, connection counter), will delivery count, presence notifications, bystander traffic",
+    level_text="For each generated victim session (CONNECT with no / valid / write-less / malformed / extendable-key will, 0-6 requests out of SUBSCRIBE with "
+               "colliding filter families, UNSUBSCRIBE, QoS-1 PUBLISH, presence-change request, link with auto-subscribe) the connection is ended after EVERY "
+               "byte offset by closing the socket, and at every packet boundary also by DISCONNECT, a packet whose decoding panics, reserved packet types "
+               "and an oversize length. After the close barrier: the index dump equals the bystanders' entries exactly, the connection counter is back, the will "
+               "watcher got the will exactly once iff CONNECT was complete and the will key may publish, the presence watcher got one unsubscribe per "
+               "subscription still held (and the subscribe/unsubscribe notifications of the processed requests in order, with the username), bystanders got "
+               "exactly the victim's processed publishes, and a later publish reaches the bystander once.",
+    level_note="Trusted: paho codec, the close signal of the wrapped pipe (Conn.Close ends with socket.Close), the presence-queue sentinel barrier, waiting for the "
+               "acknowledgement of every complete packet before ending (so the processed prefix is known). Process kill / internal panics outside the decoder "
+               "are not injected.",
+    rule="each (session, cut offset, ending) execution is one evaluation; non-trivial = cut after the CONNECT packet plus at least one further byte of a session "
+         "that has requests (acknowledged state exists); distinct = distinct (session, cut, ending).",
+    legs=[dict(name="cut-points", test="^TestCutPoints$", quick=dict(n=40, procs=4, timeout=600), thorough=dict(n=3000, procs=14, timeout=3000))],
+)
+
 for _k in CHECKS:
     NOT_APPLICABLE.pop(_k, None)
